@@ -62,7 +62,10 @@ func (c *Ctx) Generate(name, grammar string, flags ...string) (*GenResult, error
 	os.WriteFile(gf, []byte(grammar), 0o644)
 	args := append([]string{"-o", dir, "-p", "gen"}, flags...)
 	args = append(args, gf)
-	cmd := exec.Command(bin, args...)
+	// gocc is run under a time and address-space limit: a generator that does not terminate (or
+	// eats all memory) on some grammar must not take the check down with it
+	shArgs := []string{"-c", "ulimit -v 6000000; exec timeout 120 \"$0\" \"$@\"", bin}
+	cmd := exec.Command("sh", append(shArgs, args...)...)
 	cmd.Dir = dir
 	out, err := cmd.CombinedOutput()
 	res := &GenResult{Dir: dir, Output: string(out)}
